@@ -110,3 +110,11 @@ package db
 //@       | && vaas[j].VaaBytes == storedBytes(d, govId(governanceChainId, governanceEmitter, vaas[j].TargetChain, vaas[j].Sequence))
 //@       | && requested(sequences, vaas[j].Sequence)
 //@     invariant [visited-returned] forall id vaa.VAAID :: iterVisited(it, id) && requested(sequences, id.Sequence) ==> exists j in 0..len(vaas) :: vaas[j].TargetChain == id.TargetChain && vaas[j].Sequence == id.Sequence
+
+// Opening the store configures nothing beyond the store itself: the scans of this package
+// build their iterators from badger's package-level default options, which therefore stay
+// untouched (frame on package-level variables, including those of imported packages).
+//@ func Open(path string) (d *Database, err error)
+//@   props C12
+//@   ensures [store-or-error] (err == nil) == (d != nil)
+//@   modifies *
